@@ -226,6 +226,14 @@ static Bytes make_data(const Plan &plan, int entry, Chain &chain, Verdict &v, lz
 			if (lzma_block_buffer_encode(&b, nullptr, in.data(), in.size(), data.data(), &op, data.size()) == LZMA_OK) data.resize(op); else data.clear();
 			break;
 		}
+		case E_FILTER_FLAGS: {
+			// the Filter Flags of one filter of the chain, as they stand in a Block Header
+			int nf = 0; while (chain.f[nf].id != LZMA_VLI_UNKNOWN) ++nf;
+			const lzma_filter &one = chain.f[(size_t)plan.p("art_seed") % (size_t)(nf ? nf : 1)];
+			uint32_t sz = 0;
+			if (nf && lzma_filter_flags_size(&sz, &one) == LZMA_OK) { data.resize(sz); size_t op = 0; if (lzma_filter_flags_encode(&one, data.data(), &op, sz) != LZMA_OK) data.clear(); }
+			break;
+		}
 		case E_INDEX: case E_INDEX_HASH: {
 			lzma_index *i = lzma_index_init(nullptr);
 			Rng r((uint64_t)plan.p("art_seed"));
@@ -391,6 +399,31 @@ static void c04_exec(const Plan &plan, Verdict &v)
 		r = lzma_properties_decode(&pf, al, props.data(), props.size());
 		if (!ret_is_public(r)) c.viol("internal-ret", "lzma_properties_decode");
 		if (r == LZMA_OK && pf.options) c.al.a.free(c.al.a.opaque, pf.options);
+		else if (r != LZMA_OK && pf.options) c.viol("out-param", "failed lzma_properties_decode left options set");
+		if (plan.p("rand_seed") % 3 == 0) {
+			// every value of the first properties byte of every filter (rest: seeded), directly and as Filter Flags
+			Rng pr((uint64_t)plan.p("rand_seed"));
+			for (int fi = 0; fi < 6; ++fi) for (int b0 = 0; b0 < 256; ++b0) {
+				uint8_t pb[8] = { (uint8_t)b0, (uint8_t)pr.next(), (uint8_t)pr.next(), (uint8_t)pr.next(), (uint8_t)pr.next(), 0, 0, 0 };
+				size_t plen = ids[fi] == LZMA_FILTER_LZMA1 ? 5 : (ids[fi] == LZMA_FILTER_LZMA2 || ids[fi] == LZMA_FILTER_DELTA) ? 1 : 4;
+				lzma_filter q; q.id = ids[fi]; q.options = nullptr;
+				lzma_ret r3 = lzma_properties_decode(&q, al, pb, plen);
+				if (!ret_is_public(r3)) c.viol("internal-ret", "lzma_properties_decode");
+				if (r3 == LZMA_OK && q.options) c.al.a.free(c.al.a.opaque, q.options);
+				else if (r3 != LZMA_OK && q.options) { c.viol("out-param", "failed lzma_properties_decode left options set"); break; }
+				uint8_t ff[16]; size_t n2 = 0;
+				lzma_vli id = ids[fi]; while (id >= 0x80) { ff[n2++] = (uint8_t)(id | 0x80); id >>= 7; } ff[n2++] = (uint8_t)id;
+				ff[n2++] = (uint8_t)plen; memcpy(ff + n2, pb, plen); n2 += plen;
+				Bytes exact(ff, ff + n2);
+				lzma_filter q2; q2.id = 0; q2.options = nullptr; size_t ip2 = 0;
+				lzma_ret r4 = lzma_filter_flags_decode(&q2, al, exact.data(), &ip2, exact.size());
+				if (!ret_is_public(r4)) c.viol("internal-ret", "lzma_filter_flags_decode");
+				if (r4 == LZMA_OK && q2.options) c.al.a.free(c.al.a.opaque, q2.options);
+				else if (r4 != LZMA_OK && q2.options) { c.viol("out-param", "failed lzma_filter_flags_decode left options set"); break; }
+				if (c.al.cur != 0) { c.viol("leak", fmt("properties byte 0x%02x of filter 0x%llx: %llu bytes not returned to the allocator", b0, (unsigned long long)ids[fi], (unsigned long long)c.al.cur)); c.al.purge(); break; }
+			}
+			v.count("reach.properties_first_byte_sweep");
+		}
 		break;
 	}
 	case E_FILTER_STRING: {
